@@ -40,6 +40,10 @@ func (f *Frame) call(in ssa.CallInstruction, res *ssa.Call) {
 		return
 	}
 
+	if f.syncCall(c, in.Pos()) {
+		return
+	}
+
 	for _, a := range argVals {
 		if _, isLV := f.lvals[a]; isLV {
 			// address of a local or field passed out: everything reachable may change
